@@ -96,18 +96,18 @@ type Link struct {
 	editIdx   [2]int
 	skip      [2]int // bytes still to delete from the current edit
 
-	closed     [2]bool // end i (0=A,1=B) closed locally
-	closeCnt   [2]int
-	cut        bool
-	killed     bool
-	blockedW   [2]bool      // end i blocked in Write (outbound queue full)
-	deadline   [2]time.Time // armed by SetDeadline & co. of end i
+	closed   [2]bool // end i (0=A,1=B) closed locally
+	closeCnt [2]int
+	cut      bool
+	killed   bool
+	blockedW [2]bool      // end i blocked in Write (outbound queue full)
+	deadline [2]time.Time // armed by SetDeadline & co. of end i
 	// the link's own clock (Plan.ClockJump): its lead over the wall clock, and the read / write deadlines of each end
 	// on that clock (zero = none)
-	clockLead time.Duration
+	clockLead  time.Duration
 	expR, expW [2]time.Time
-	expired    [2]int // Reads / Writes refused because their deadline had passed on the link's clock
-	fire       [2]bool      // the blocked call of end i must return a timeout
+	expired    [2]int  // Reads / Writes refused because their deadline had passed on the link's clock
+	fire       [2]bool // the blocked call of end i must return a timeout
 	timeouts   [2]int
 	blocked    [2]bool // end i blocked in Read
 	deadlock   bool
